@@ -17,6 +17,7 @@ import (
 	"time"
 
 	"github.com/taskctl/taskctl/pkg/task"
+	"github.com/taskctl/taskctl/pkg/variables"
 )
 
 type schedScenario struct {
@@ -293,6 +294,9 @@ func runSched(n, edges int, b func(string) bool, prios [][]int) (string, bool) {
 		}
 		if returned && (runErr != nil) != hard {
 			viol = append(viol, fmt.Sprintf("C02: run error %v, reference hard failure %v", runErr, hard))
+			if hard && runErr == nil {
+				viol = append(viol, "C07: a stage failed without allow_failure but the pipeline run reports success (the command line would exit 0 and go on to the next target)")
+			}
 		}
 		r.mu.Unlock()
 		if len(viol) > 0 {
@@ -384,7 +388,7 @@ func TestVerifReplaySched(t *testing.T) {
 		// one line naming every property whose oracle failed somewhere
 		seen := map[string]bool{}
 		for _, v := range all {
-			for _, id := range []string{"C01:", "C02:", "C03:", "C04:"} {
+			for _, id := range []string{"C01:", "C02:", "C03:", "C04:", "C07:"} {
 				if strings.Contains(v, id) {
 					seen[id] = true
 				}
@@ -547,5 +551,94 @@ func TestVerifReplaySchedWorker(t *testing.T) {
 		fmt.Println("REPLAY: reproduced:", v)
 	} else {
 		fmt.Println("REPLAY: not-reproduced (real scheduler behaved on this scenario)")
+	}
+}
+
+// ---- VerifSchedBarrier: tasks that need the concurrency ----
+
+type barrierRunner struct {
+	mu      sync.Mutex
+	started map[string]bool
+	need    map[string][]string
+	gaveUp  []string
+}
+
+func (b *barrierRunner) Run(t *task.Task) error {
+	b.mu.Lock()
+	b.started[t.Name] = true
+	b.mu.Unlock()
+	deadline := time.Now().Add(3 * time.Second)
+	for {
+		all := true
+		b.mu.Lock()
+		for _, p := range b.need[t.Name] {
+			if !b.started[p] {
+				all = false
+			}
+		}
+		b.mu.Unlock()
+		if all {
+			return nil
+		}
+		if time.Now().After(deadline) {
+			b.mu.Lock()
+			b.gaveUp = append(b.gaveUp, t.Name)
+			b.mu.Unlock()
+			return nil
+		}
+		time.Sleep(5 * time.Millisecond)
+	}
+}
+func (b *barrierRunner) Cancel() {}
+func (b *barrierRunner) Finish() {}
+
+func TestVerifReplaySchedBarrier(t *testing.T) {
+	data, err := os.ReadFile(os.Getenv("VERIF_SCENARIO"))
+	if err != nil {
+		t.Skip("no scenario")
+	}
+	var sc struct {
+		Args []int64 `json:"args"`
+	}
+	json.Unmarshal(data, &sc)
+	shape := int(sc.Args[0])
+	names := [][]string{{"a", "b"}, {"a", "b", "c"}, {"a", "b", "c"}, {"a", "b", "c"}}[shape]
+	deps := []map[string][]string{{}, {}, {"b": {"a"}, "c": {"a"}}, {"c": {"a"}}}[shape]
+	need := []map[string][]string{
+		{"a": {"b"}, "b": {"a"}},
+		{"a": {"b", "c"}, "b": {"a", "c"}, "c": {"a", "b"}},
+		{"b": {"c"}, "c": {"b"}},
+		{"b": {"c"}},
+	}[shape]
+	var stages []*Stage
+	for _, n := range names {
+		tk := task.FromCommands("true")
+		tk.Name = n
+		stages = append(stages, &Stage{Name: n, Task: tk, DependsOn: deps[n],
+			Env: variables.FromMap(map[string]string{"E": n}), Variables: variables.FromMap(map[string]string{"V": n})})
+	}
+	g, err := NewExecutionGraph(stages...)
+	if err != nil {
+		t.Fatal(err)
+	}
+	br := &barrierRunner{started: map[string]bool{}, need: need}
+	done := make(chan error, 1)
+	go func() { done <- NewScheduler(br).Schedule(g) }()
+	var bad []string
+	select {
+	case <-done:
+	case <-time.After(20 * time.Second):
+		bad = append(bad, "C03: Schedule did not return")
+	}
+	br.mu.Lock()
+	for _, n := range br.gaveUp {
+		bad = append(bad, fmt.Sprintf("C04: the task of stage %s waited 3 s for the task(s) of %v, eligible together with it, to start: they were held back until another one finished", n, need[n]))
+	}
+	br.mu.Unlock()
+	fmt.Printf("REPLAY: shape %d, started %v\n", shape, br.started)
+	if len(bad) > 0 {
+		fmt.Println("REPLAY: reproduced: " + strings.Join(bad, "; "))
+	} else {
+		fmt.Println("REPLAY: not-reproduced (the stages that were eligible together ran concurrently)")
 	}
 }
